@@ -204,6 +204,32 @@ func init() {
 					}
 					w.Each(len(items), func(i int) { w.Item(items[i][0], items[i][1]) })
 				}, Eval: evalC09},
+			{Name: "html-tag-attribute-units", Space: "units = tag opener x attribute form (4 x 12: a complete tag start with one attribute, repeated with nothing in between) and attribute-list units with every ASCII punctuation byte as separator inside a URL / plain value, x 6 openers x {4K,16K,64K}", Share: 1,
+				Run: func(w *fw.W) {
+					var items [][2]string
+					tags := []string{"<a ", "<a/", "<a\t", "</a "}
+					attrs := []string{"x=", "x=y", "x", "x='", "href=", "href=x", "x=<", "x=y ", "x=y>", "x='y'", "on=", "style="}
+					for _, t := range tags {
+						for _, a := range attrs {
+							for _, o := range []string{"", "<a ", "<a b=", "<a href=", "</a ", "<!--"} {
+								items = append(items, [2]string{t + a, "html|" + o})
+							}
+						}
+					}
+					for b := 0x21; b < 0x7f; b++ {
+						c := string([]byte{byte(b)})
+						if (b >= '0' && b <= '9') || (b >= 'a' && b <= 'z') || (b >= 'A' && b <= 'Z') {
+							continue
+						}
+						for _, o := range []string{"<a href=", "<a href=\"", "<a x=", "<a style='", "", "<a "} {
+							items = append(items, [2]string{"a" + c, "html|" + o})
+						}
+						for _, o := range []string{"", "'", "1 ", "1 union select "} {
+							items = append(items, [2]string{"a" + c, "sql|" + o})
+						}
+					}
+					w.Each(len(items), func(i int) { w.Item(items[i][0], items[i][1]) })
+				}, Eval: evalC09},
 			{Name: "new-literal-families", Space: "units a, a+x, x+a for every literal a the tree under test has in addition to the pinned tree and every symbol x, x all openers x {4K,16K,64K} (empty on the pinned tree)", Share: 1,
 				Run: func(w *fw.W) {
 					var items [][2]string
